@@ -431,9 +431,9 @@ def san_env():
     return env
 
 
-def build_schema(src, t):
+def build_schema(src, t, hname="h_c13"):
     """-> ('exe', path) | ('fail', result token).  Cached in the process and on disk."""
-    key = B.sha(src, t)
+    key = B.sha(src, t, hname)
     with _lock:
         if key in _built:
             return _built[key]
@@ -473,10 +473,10 @@ def build_schema(src, t):
             if os.path.exists(failmark):      # a failed compilation is remembered per header state
                 raise B.BuildError(open(failmark).read())
             objs = B.compile_many(cpps, "asan", extra=["-I" + d, "-O0", "-g0"], extra_hash=d)
-            hsrc = os.path.join(B.VERIF, "harness", "h_c13.cpp")
-            hh = B.sha(B.read(os.path.join(B.VERIF, "harness", "hcommon.hpp")))
+            hsrc = os.path.join(B.VERIF, "harness", hname + ".cpp")
+            hh = B.sha(B.read(os.path.join(B.VERIF, "harness", "hcommon.hpp")), B.read(os.path.join(B.VERIF, "harness", "h_c13.cpp")))
             hobj = B.compile_obj(hsrc, "asan", extra=["-I" + os.path.join(B.VERIF, "harness")], extra_hash=hh)
-            res = ("exe", B.link([hobj] + objs + B.runtime_objs("asan"), "h_c13", "asan"))
+            res = ("exe", B.link([hobj] + objs + B.runtime_objs("asan"), hname, "asan"))
         except B.BuildError as e:
             open(os.path.join(d, "compile.log"), "w").write(str(e))
             open(failmark, "w").write(str(e)[-4000:])
@@ -506,7 +506,7 @@ def run_impl(built, cases, tier):
     def work(item):
         (src, t), lst = item
         try:
-            kind, val = build_schema(src, t)
+            kind, val = build_schema(src, t, built.get("harness", "h_c13"))
         except Exception as e:   # f8c hanging, tool failure
             kind, val = "fail", "F8C-FAIL " + str(e)[:100].replace("\n", " ").replace("\t", " ")
         if kind == "fail":
